@@ -93,3 +93,306 @@ V('optab-cudd-implies', 'C19', 'breaking',
                 mgr, v.node, u.node, Cudd_ReadOne(mgr))
         elif op in ('<=>', '<->', 'equiv'):""")],
   "R-OPTAB/alias/dd.cudd.BDD.apply", 'cudd implies reversed')
+
+# ----------------------------------------------------------------- R-SIGN
+V('sign-vcompose-hit', 'C04', 'breaking',
+  [(B, """            if r == 0:
+                raise AssertionError(r)
+            # complement ?
+            if f < 0:
+                r = -r
+            return r""", """            if r == 0:
+                raise AssertionError(r)
+            return r""")],
+  'R-SIGN/sign-lost/dd.bdd.BDD._vector_compose',
+  'memo hit of _vector_compose forgets the complement')
+V('sign-quantify-pushdown', 'C03', 'breaking',
+  [(B, """        # complement ?
+        if u < 0:
+            v, w = -v, -w
+        n = len(ordvar)""", """        n = len(ordvar)""")],
+  'R-SIGN/sign-lost/dd.bdd.BDD._quantify', 'no push-down in _quantify')
+V('sign-topcofactor', ['C01', 'C03', 'C04', 'C13'], 'breaking',
+  [(B, """        # complement ?
+        if u < 0:
+            v, w = -v, -w
+        return (v, w)""", """        return (v, w)""")],
+  'R-SIGN/sign-lost/dd.bdd.BDD._top_cofactor', 'no sign in _top_cofactor')
+V('sign-satlen-miss', 'C10', 'breaking',
+  [(B, """        d[abs(u)] = n
+        # complement ?
+        if u < 0:
+            n = 2**(map_level['all'] - i) - n
+        return self._assert_int(n)""", """        d[abs(u)] = n
+        return self._assert_int(n)""")],
+  'R-SIGN/sign-lost/dd.bdd.BDD._sat_len', 'miss path of _sat_len')
+V('sign-satlen-hit', 'C10', 'breaking',
+  [(B, """            n = d[abs(u)]
+            # complement ?
+            if u < 0:
+                n = 2**(map_level['all'] - i) - n
+            return self._assert_int(n)""", """            n = d[abs(u)]
+            return self._assert_int(n)""")],
+  'R-SIGN/sign-lost/dd.bdd.BDD._sat_len', 'hit path of _sat_len')
+V('sign-satiter', 'C10', 'breaking',
+  [(B, """        if u < 0:
+            value = not value
+        # terminal ?""", """        # terminal ?""")],
+  'R-SIGN/sign-lost/dd.bdd.BDD._sat_iter', '_sat_iter ignores complement')
+V('sign-cofactor-pullup', 'C04', 'breaking',
+  [(B, """        # complement ?
+        if u < 0:
+            r = -r
+        cache[u] = r
+        return r""", """        cache[u] = r
+        return r""")],
+  'R-SIGN/sign-lost/dd.bdd.BDD._cofactor', '_cofactor forgets complement')
+V('sign-compose-eq', 'C04', 'breaking',
+  [(B, """            r = self.ite(g, w, v)
+            # complemented edge ?
+            if f < 0:
+                r = -r""", """            r = self.ite(g, w, v)""")],
+  'R-SIGN/sign-lost/dd.bdd.BDD._compose', '_compose at the level of var')
+V('sign-copy-hit', ['C04', 'C11'], 'breaking',
+  [(B, """        if r <= 0:
+            raise AssertionError(r)
+        # complement ?
+        if u < 0:
+            r = -r
+        return r
+    # recurse
+    jold, v, w = old_bdd._succ[abs(u)]""", """        if r <= 0:
+            raise AssertionError(r)
+        return r
+    # recurse
+    jold, v, w = old_bdd._succ[abs(u)]""")],
+  'R-SIGN/sign-lost/dd.bdd._copy_bdd', 'memo hit of _copy_bdd')
+V('sign-toexpr', 'C05', 'breaking',
+  [(B, """        # complemented ?
+        if u < 0:
+            expr = f'(~ {expr})'
+        cache[u] = expr""", """        cache[u] = expr""")],
+  'R-SIGN/sign-lost/dd.bdd.BDD._to_expr', 'printer drops negation')
+V('sign-load-memo', 'C12', 'breaking',
+  [(B, """            if r <= 0:
+                raise AssertionError(r)
+            if u < 0:
+                r = -r
+            return r
+        i, v, w = succ[abs(u)]""", """            if r <= 0:
+                raise AssertionError(r)
+            return r
+        i, v, w = succ[abs(u)]""")],
+  'R-SIGN/sign-lost/dd.bdd.BDD._load', 'memo hit of _load')
+V('sign-mapnode', 'C12', 'breaking',
+  [(B, """            v = umap[abs(u)]
+            if u < 0:
+                return - v
+            else:
+                return v""", """            v = umap[abs(u)]
+            return v""")],
+  'R-SIGN/sign-lost/dd.bdd.BDD.load.map_node', 'roots lose complement')
+V('sign-json-dump-hit', 'C12', 'breaking',
+  [('dd/_copy.py', """    if str(k) in cache:
+        return -k if u.negated else k""", """    if str(k) in cache:
+        return k""")],
+  'R-SIGN/sign-lost/dd._copy._dump_bdd', 'JSON writer, node seen before')
+V('sign-json-node-from-int', 'C12', 'breaking',
+  [('dd/_copy.py', "    return ~ u if uid < 0 else u", "    return u")],
+  'R-SIGN/sign-lost/dd._copy._node_from_int', 'JSON reader drops sign')
+V('sign-copy-copybdd', 'C11', 'breaking',
+  [('dd/_copy.py', """        r = cache[k]
+        return _flip(r, u)""", """        r = cache[k]
+        return r""")],
+  'R-SIGN/sign-lost/dd._copy._copy_bdd', 'memo hit in _copy._copy_bdd')
+V('sign-mdd-topcofactor', 'C15', 'breaking',
+  [('dd/mdd.py', """            if u < 0:
+                return tuple(-v for v in nodes)""", """            if u < 0:
+                return tuple(nodes)""")],
+  None, 'still inside the sign test: dependence rule cannot see polarity')
+VARIANTS[-1]['kind'] = 'benign'   # documented blind spot (polarity)
+V('sign-mdd-edge-map', 'C15', 'breaking',
+  [('dd/mdd.py', """        int_succ = [umap[abs(z)] if z > 0 else -umap[abs(z)]
+                    for z in bit_succ]""", """        int_succ = [umap[abs(z)]
+                    for z in bit_succ]""")],
+  'R-SIGN/sign-lost/dd.mdd.bdd_to_mdd', 'edge map drops complement')
+V('sign-dddmp', 'C16', 'breaking',
+  [('dd/dddmp.py', """            if v < 0:
+                p = -p
+            r = bdd.find_or_add(i, p, q)""", """            r = bdd.find_or_add(i, p, q)""")],
+  'R-SIGN/sign-lost/dd.dddmp.load', 'complemented else edges ignored')
+V('sign-reduction', 'C02', 'breaking',
+  [(B, """            p = _flip(p, v)
+            q = _flip(q, w)""", """            q = _flip(q, w)""")],
+  'R-SIGN/sign-lost/dd.bdd.BDD.reduction', 'reduction drops low sign')
+V('sign-tonx', 'C18', 'breaking',
+  [(B, """                value=False,
+                complement=r)""", """                value=False,
+                complement=False)""")],
+  'R-SIGN/sign-lost/dd.bdd.to_nx', 'to_nx loses complement attribute')
+V('sign-todot', 'C18', 'breaking',
+  [(B, """        kw = dict(style='dashed')
+        if v < 0:
+            kw['taillabel'] = '-1'
+        g.add_edge(
+            su, sv,""", """        kw = dict(style='dashed')
+        g.add_edge(
+            su, sv,""")],
+  'R-SIGN/sign-lost/dd.bdd._to_dot', 'DOT export loses complement mark')
+V('sign-negated', 'C18', 'breaking',
+  [(A, "        return self.node < 0", "        return self.node < 1")],
+  'R-SIGN/negated', 'negated is true for the terminal too')
+V('sign-flip', ['C02', 'C04'], 'breaking',
+  [(B, "    return -r if u < 0 else r", "    return -r if u > 0 else r")],
+  'R-SIGN/flip/dd.bdd._flip', '_flip polarity')
+V('sign-benign-shortcut', ['C01', 'C03', 'C04'], 'benign',
+  [(B, """        # u independent of var ?
+        if i < iu:
+            return (u, u)""", """        # u independent of var ?
+        if i < iu:
+            t = (u, u)
+            return t""")],
+  None, 'local in a shortcut return')
+V('sign-benign-inline-flip', 'C02', 'benign',
+  [(B, """            p = _flip(p, v)
+            q = _flip(q, w)""", """            p = -p if v < 0 else p
+            q = _flip(q, w)""")],
+  None, '_flip replaced by its body')
+V('sign-benign-rename-local', 'C04', 'benign',
+  [(B, """        r = self.ite(g, q, p)
+        # memoize
+        cache[abs(f)] = r
+        # complement ?
+        if f < 0:
+            r = -r
+        return r""", """        res = self.ite(g, q, p)
+        # memoize
+        cache[abs(f)] = res
+        # complement ?
+        if f < 0:
+            res = -res
+        return res""")],
+  None, 'renamed local')
+V('sign-benign-pushdown-instead', 'C04', 'benign',
+  [(B, """        # complement ?
+        if u < 0:
+            r = -r
+        cache[u] = r
+        return r""", """        # complement ?
+        r = _flip(r, u)
+        cache[u] = r
+        return r""")],
+  None, 'pull-up through _flip')
+
+# ----------------------------------------------------------------- R-ROLE
+V('role-ite-crossed', 'C01', 'breaking',
+  [(B, "        w = self.find_or_add(z, p, q)\n        # cache",
+       "        w = self.find_or_add(z, q, p)\n        # cache")],
+  'R-ROLE/crossed/dd.bdd.BDD._ite', 'find_or_add(z, HIGH, LOW) in _ite')
+V('role-ite-mixed', 'C01', 'breaking',
+  [(B, "        p = self._ite(g0, u0, v0)", "        p = self._ite(g0, u1, v0)")],
+  'R-ROLE/mixed-recursion/dd.bdd.BDD._ite', 'inhomogeneous recursion')
+V('role-quantify', 'C03', 'breaking',
+  [(B, "            r = self.find_or_add(i, p, q)\n        cache[u] = r\n        return r\n\n    def forall(",
+       "            r = self.find_or_add(i, q, p)\n        cache[u] = r\n        return r\n\n    def forall(")],
+  'R-ROLE/crossed/dd.bdd.BDD._quantify', 'branches exchanged')
+V('role-compose-ite', 'C04', 'breaking',
+  [(B, "            r = self.ite(g, w, v)\n            # complemented edge ?",
+       "            r = self.ite(g, v, w)\n            # complemented edge ?")],
+  'R-ROLE/crossed/dd.bdd.BDD._compose', 'ite(g, LOW, HIGH)')
+V('role-vcompose', 'C04', 'breaking',
+  [(B, "        r = self.ite(g, q, p)\n        # memoize\n        cache[abs(f)] = r",
+       "        r = self.ite(g, p, q)\n        # memoize\n        cache[abs(f)] = r")],
+  'R-ROLE/crossed/dd.bdd.BDD._vector_compose', 'ite(g, LOW, HIGH)')
+V('role-cofactor-value', 'C04', 'breaking',
+  [(B, "            if bool(val):\n                v = w", "            if not bool(val):\n                v = w")],
+  'R-ROLE/value-arm/dd.bdd.BDD._cofactor', 'True selects the low branch')
+V('role-compose-mixed', 'C04', 'breaking',
+  [(B, """            p = self._compose(
+                f0, j, g0,
+                cache)""", """            p = self._compose(
+                f0, j, g1,
+                cache)""")],
+  'R-ROLE/mixed-recursion/dd.bdd.BDD._compose', 'f0 with g1')
+V('role-copy', ['C04', 'C11'], 'breaking',
+  [(B, "    r = bdd.ite(g, q, p)\n    # memoize\n    if r <= 0:",
+       "    r = bdd.ite(g, p, q)\n    # memoize\n    if r <= 0:")],
+  'R-ROLE/crossed/dd.bdd._copy_bdd', 'ite(g, LOW, HIGH) in copy')
+V('role-toexpr', 'C05', 'breaking',
+  [(B, "expr = f'ite({var}, {q}, {p})'", "expr = f'ite({var}, {p}, {q})'")],
+  'R-ROLE/crossed/dd.bdd.BDD._to_expr', 'printer exchanges branches')
+V('role-toexpr-shortcut', 'C05', 'breaking',
+  [(B, "if p == 'FALSE' and q == 'TRUE':", "if p == 'TRUE' and q == 'FALSE':")],
+  'R-ROLE/const-assoc/dd.bdd.BDD._to_expr', 'shortcut for negated var')
+V('role-satiter', 'C10', 'breaking',
+  [(B, "        for x in self._sat_iter(v, d0, value):", "        for x in self._sat_iter(v, d1, value):")],
+  'R-ROLE/mixed-recursion/dd.bdd.BDD._sat_iter', 'low branch with True')
+V('role-copy-copy', 'C11', 'breaking',
+  [('dd/_copy.py', "    r = bdd.ite(g, high, low)\n    # if r.negated:",
+                   "    r = bdd.ite(g, low, high)\n    # if r.negated:")],
+  'R-ROLE/crossed/dd._copy._copy_bdd', 'ite(g, LOW, HIGH)')
+V('role-load', 'C12', 'breaking',
+  [(B, "        r = self.find_or_add(j, p, q)\n        if r <= 0:",
+       "        r = self.find_or_add(j, q, p)\n        if r <= 0:")],
+  'R-ROLE/crossed/dd.bdd.BDD._load', 'loader exchanges branches')
+V('role-json-writer', 'C12', 'breaking',
+  [('dd/_copy.py', """[{u.level}, {low}, {high}]'""", """[{u.level}, {high}, {low}]'""")],
+  'R-ROLE/crossed/dd._copy._dump_bdd', 'JSON node written as [level, HIGH, LOW]')
+V('role-json-reader', 'C12', 'breaking',
+  [('dd/_copy.py', "        u = bdd.ite(g, high, low)", "        u = bdd.ite(g, low, high)")],
+  'R-ROLE/crossed/dd._copy._make_node', 'JSON reader')
+V('role-json-reader-unpack', 'C12', 'breaking',
+  [('dd/_copy.py', "(uid, (level, low_id, high_id)), = d.items()",
+                   "(uid, (level, high_id, low_id)), = d.items()")],
+  'R-ROLE/crossed/dd._copy._make_node', 'layout read as [level, HIGH, LOW]')
+V('role-image', 'C13', 'breaking',
+  [(B, "        r = bdd.ite(g, q, p)\n    cache[t] = r", "        r = bdd.ite(g, p, q)\n    cache[t] = r")],
+  'R-ROLE/crossed/dd.bdd._image', 'ite(g, LOW, HIGH) in _image')
+V('role-image-mixed', 'C13', 'breaking',
+  [(B, """    p = _image(
+        u0, v0, umap, vmap, qvars,""", """    p = _image(
+        u0, v1, umap, vmap, qvars,""")],
+  'R-ROLE/mixed-recursion/dd.bdd._image', 'u0 with v1')
+V('conn-quantify', 'C03', 'breaking',
+  [(B, "                r = self.ite(p, q, -1)\n                    # conjoin",
+       "                r = self.ite(p, 1, q)\n                    # conjoin")],
+  'R-CONN/encoding/dd.bdd.BDD._quantify', 'forall computed as or')
+V('conn-image', 'C13', 'breaking',
+  [(B, "            r = bdd.ite(p, 1, q)\n                # disjoin",
+       "            r = bdd.ite(p, q, 1)\n                # disjoin")],
+  'R-CONN/encoding/dd.bdd._image', 'exists computed as implies')
+V('role-dddmp-store', 'C16', 'breaking',
+  [('dd/dddmp.py', "        self.bdd[u] = (level, w, v)", "        self.bdd[u] = (level, v, w)")],
+  'R-ROLE/crossed/dd.dddmp.Parser._add_node', 'then/else not swapped')
+V('role-dddmp-load', 'C16', 'breaking',
+  [('dd/dddmp.py', "            r = bdd.find_or_add(i, p, q)", "            r = bdd.find_or_add(i, q, p)")],
+  'R-ROLE/crossed/dd.dddmp.load', 'loader exchanges branches')
+V('role-low-accessor', 'C18', 'breaking',
+  [(A, """        _, v, _ = self.manager._succ[abs(self.node)]
+        if v is None:
+            return None
+        return Function(v, self.bdd)""", """        _, _, v = self.manager._succ[abs(self.node)]
+        if v is None:
+            return None
+        return Function(v, self.bdd)""")],
+  'R-ROLE/accessor/dd.autoref.Function.low', 'low returns high')
+V('role-succ-autoref', 'C18', 'breaking',
+  [(A, "        return i, wrap(v), wrap(w)", "        return i, wrap(w), wrap(v)")],
+  'R-ROLE/crossed/dd.autoref.BDD.succ', 'succ exchanges branches')
+V('role-tonx', 'C18', 'breaking',
+  [(B, """            g.add_edge(
+                u, v,
+                value=False,""", """            g.add_edge(
+                u, v,
+                value=True,""")],
+  'R-ROLE/edge-label/dd.bdd.to_nx', 'low edge labelled True')
+V('role-todot', 'C18', 'breaking',
+  [(B, "        kw = dict(style='dashed')\n        if v < 0:", "        kw = dict(style='solid')\n        if v < 0:")],
+  'R-ROLE/edge-style/dd.bdd._to_dot', 'low edge drawn solid')
+V('role-benign-tuple-split', 'C01', 'benign',
+  [(B, "        g0, g1 = self._top_cofactor(g, z)\n        u0, u1",
+       "        gc = self._top_cofactor(g, z)\n        g0, g1 = gc\n        u0, u1")],
+  None, 'pair through a temporary')
+V('role-benign-shortcut', 'C01', 'benign',
+  [(B, "        g0, g1 = self._top_cofactor(g, z)\n        u0, u1 = self._top_cofactor(u, z)\n        v0, v1 = self._top_cofactor(v, z)\n        p = self._ite", "        if u == v:\n            return u\n        g0, g1 = self._top_cofactor(g, z)\n        u0, u1 = self._top_cofactor(u, z)\n        v0, v1 = self._top_cofactor(v, z)\n        p = self._ite")],
+  None, 'extra shortcut in _ite')
